@@ -2,6 +2,7 @@ CONSTANTS
   Bits = 16
   RowIncl = FALSE
   RootClip = FALSE
+  WideFix = FALSE
   Sizes = {0, 1, 2, 3, 255, 256, 257, 300}
   Coords = {0, 1, 2, 3, 254, 255, 256, 257, 299, 300, 301, 65535}
   Rows = 2
